@@ -1,0 +1,101 @@
+//go:build verif
+
+// Contracts for gzv (contract-based deductive verification, /verif). Comment-only file.
+package breaker
+
+// ---------------------------------------------------------------------------------------------
+// C01 circuit breaker (float64 arithmetic over the reals; every window access is one critical section of the
+// RollingWindow lock, so the sequential histories below are the linearisations of concurrent use).
+// ---------------------------------------------------------------------------------------------
+
+// A bucket counts every call once: Sum = Success + Failure + Drop, all non-negative.
+//@ typeinv (b *bucket): b.Sum == b.Success + b.Failure + b.Drop && b.Success >= 0 && b.Failure >= 0 && b.Drop >= 0
+
+//@ func (b *bucket) Add
+//@   property C01
+//@   requires v == 0 || v == 1 || v == 2
+//@   ensures  b.Sum == old(b.Sum) + 1
+//@   ensures  b.Success == old(b.Success) + ite(v == 0, 1, 0) && b.Failure == old(b.Failure) + ite(v == 1, 1, 0) && b.Drop == old(b.Drop) + ite(v == 2, 1, 0)
+//@   modifies b.Sum, b.Success, b.Failure, b.Drop
+//@ func (b *bucket) Reset
+//@   property C01
+//@   ensures  b.Sum == 0 && b.Success == 0 && b.Failure == 0 && b.Drop == 0
+//@   modifies b.Sum, b.Success, b.Failure, b.Drop
+//@ func (b *bucket) fail
+//@   property C01
+//@   ensures  b.Sum == old(b.Sum) + 1 && b.Failure == old(b.Failure) + 1
+//@   modifies b.Sum, b.Failure
+//@ func (b *bucket) drop
+//@   property C01
+//@   ensures  b.Sum == old(b.Sum) + 1 && b.Drop == old(b.Drop) + 1
+//@   modifies b.Sum, b.Drop
+//@ func (b *bucket) succeed
+//@   property C01
+//@   ensures  b.Sum == old(b.Sum) + 1 && b.Success == old(b.Success) + 1
+//@   modifies b.Sum, b.Success
+
+// history(): gAcc / gTot are ghost accumulators mirroring the statement "accepts = sum of Success, total = sum of Sum over the
+// buckets Reduce visits" (reset before the Reduce call, advanced at the entry of the callback).
+//@ ghost var gAcc int
+//@ ghost var gTot int
+//@ ghost var gCnt int
+//@ func (b *googleBreaker) history
+//@   property C01
+//@   requires collection.rwOK(b.stat)
+//@   ensures  result.accepts == gAcc && result.total == gTot
+//@   ensures  0 <= result.accepts && result.accepts <= result.total
+//@   ensures  0 <= result.failingBuckets && result.failingBuckets <= gCnt && 0 <= result.workingBuckets && result.workingBuckets <= gCnt
+//@   modifies gAcc, gTot, gCnt
+//@   ghost at before Reduce#0: gAcc = 0
+//@   ghost at before Reduce#0: gTot = 0
+//@   ghost at before Reduce#0: gCnt = 0
+//@   ghost at lit 0 entry: gAcc = gAcc + b.Success
+//@   ghost at lit 0 entry: gTot = gTot + b.Sum
+//@   ghost at lit 0 entry: gCnt = gCnt + 1
+//@   call Reduce#0: invariant result.accepts == gAcc && result.total == gTot && gCnt == idx
+//@   call Reduce#0: invariant 0 <= result.accepts && result.accepts <= result.total
+//@   call Reduce#0: invariant 0 <= result.failingBuckets && result.failingBuckets <= idx && 0 <= result.workingBuckets && result.workingBuckets <= idx
+
+//@ spec brkOK(b *googleBreaker) bool = b.stat != nil && collection.rwOK(b.stat) && b.k == 1.5 && b.lastPass != nil && b.proba != nil
+//@ spec added(b *googleBreaker, v int) int = rwAdded[b.stat][v]
+// weight of the accepted calls and the throttling condition, spelled with the statement's constants (10 s window = 40 buckets)
+//@ spec weight(failing int64) float64 = max(1.1, 1.5 - 0.4*real(failing)/40.0)
+//@ spec throttling(acc int64, tot int64, failing int64) bool = real(tot-5) - weight(failing)*real(acc) > 0.0
+
+//@ func (b *googleBreaker) accept
+//@   property C01
+//@   float real
+//@   requires brkOK(b)
+//@   ghost at after history#0: H = ret
+//@   ensures  implies(result != nil, result == ErrServiceUnavailable)
+//@   ensures  implies(result != nil, 10*(H.total-5) > 11*H.accepts)
+//@   ensures  implies(result != nil, throttling(H.accepts, H.total, H.failingBuckets) && adVal[b.lastPass] == old(adVal[b.lastPass]))
+//@   ensures  implies(old(adVal[b.lastPass]) > 0 && now - old(adVal[b.lastPass]) > time.Second, result == nil)
+//@   ensures  implies(result == nil && throttling(H.accepts, H.total, H.failingBuckets), adVal[b.lastPass] == now)
+//@   ensures  implies(!throttling(H.accepts, H.total, H.failingBuckets), result == nil && adVal[b.lastPass] == old(adVal[b.lastPass]))
+//@   ensures  H.accepts == gAcc && H.total == gTot
+//@   call TrueOnProba#0: assert implies(H.accepts == 0 && H.workingBuckets == 0, arg_proba*real(H.total+1) == real(H.total-5))
+//@   call TrueOnProba#0: assert arg_proba*real(H.total+1)*40.0 == (real(H.total-5) - weight(H.failingBuckets)*real(H.accepts))*real(40-H.workingBuckets)
+//@   modifies adVal[b.lastPass], gAcc, gTot, gCnt
+
+// sustained total failure: with no accepted call in the window the drop probability is (total-5)/(total+1), at least 0.9 from 59 recorded calls on
+//@ lemma droprate(total float64, p float64)
+//@   property C01
+//@   hyp total >= 59.0 && p*(total+1.0) == total-5.0
+//@   goal p >= 0.9 && p < 1.0
+
+//@ func (b *googleBreaker) markDrop
+//@   property C01
+//@   requires brkOK(b)
+//@   ensures  brkOK(b) && rwAdded[b.stat] == upd(old(rwAdded[b.stat]), 2, old(added(b, 2)) + 1)
+//@   modifies rwAdded[b.stat], bucket.Sum, bucket.Success, bucket.Failure, bucket.Drop, collection.RollingWindow.offset, collection.RollingWindow.lastTime
+//@ func (b *googleBreaker) markFailure
+//@   property C01
+//@   requires brkOK(b)
+//@   ensures  brkOK(b) && rwAdded[b.stat] == upd(old(rwAdded[b.stat]), 1, old(added(b, 1)) + 1)
+//@   modifies rwAdded[b.stat], bucket.Sum, bucket.Success, bucket.Failure, bucket.Drop, collection.RollingWindow.offset, collection.RollingWindow.lastTime
+//@ func (b *googleBreaker) markSuccess
+//@   property C01
+//@   requires brkOK(b)
+//@   ensures  brkOK(b) && rwAdded[b.stat] == upd(old(rwAdded[b.stat]), 0, old(added(b, 0)) + 1)
+//@   modifies rwAdded[b.stat], bucket.Sum, bucket.Success, bucket.Failure, bucket.Drop, collection.RollingWindow.offset, collection.RollingWindow.lastTime
